@@ -610,6 +610,15 @@ def fam_reentrant(g, prefix, n_random):
             steps = [["subject", "a", "plain"], ["subject", "b", "plain"], ["sub", p, ["react", ["0", act]]],
                      ["hnext", "a", "1"], ["hnext", "b", "1"], ["hnext", "a", "3"], ["hcomplete", "a"], ["hcomplete", "b"]]
             out.append(case("%s-%d" % (prefix, i), steps)); i += 1
+        # the two inputs DIFFER (sequence_equal decides early, zip / combine_latest pair unequal values), reactions at the
+        # first and at the second delivered event
+        for act in (["hnext", "a", "2"], ["hnext", "b", "2"], ["hcomplete", "a"], ["hcomplete", "b"], ["herror", "b", "6"]):
+            for idx in ("0", "1"):
+                g.tag = 0
+                p = g.combine_named(c, ["ref", "a"], [["ref", "b"]], hot=("a", "b"))
+                steps = [["subject", "a", "plain"], ["subject", "b", "plain"], ["sub", p, ["react", [idx, act]]],
+                         ["hnext", "a", "1"], ["hnext", "b", "2"], ["hnext", "a", "3"], ["hnext", "b", "3"], ["hcomplete", "a"], ["hcomplete", "b"]]
+                out.append(case("%s-%d" % (prefix, i), steps)); i += 1
     return out
 
 def fam_reentrant_values(g, prefix, draws=2):
